@@ -7,7 +7,9 @@
                           position range, the text is the spl code block of the Display of the entry
                           the context's tables hold under the identifier's spelling (local table of
                           the enclosing procedure first, then the global table; global table only
-                          inside a type declaration) followed by the documentation block
+                          inside a type declaration and in a global position = behind `proc`,
+                          `type`, `:`, `of`) followed by the documentation block
+     [global_position_spec] what DocumentCursor::is_global_position computes
      [hover_none]         no identifier token contains the index => never an answer
      [hover_total]        under the explicit predicate [cursor_pre] (the declarations' token ranges
                           lie inside the token vector) the handler does not panic
@@ -54,6 +56,10 @@ Qed.
 (* what the text of an answer is made of *)
 Definition hover_text (e : entry) : text := to_spl (show_entry e) ++ hover_documentation (entry_doc e).
 
+(* DocumentCursor::is_global_position as a function of the token vector and the cursor index *)
+Definition global_position_at (toks : list token) (index : N) : bool :=
+  gp_scan None toks (fun t => in_range (ts t, te t) index).
+
 Theorem hover_inv d line col v r :
   hover d line col = ROk (Some (v, r)) ->
   let index := get_insertion_index line col (d_text d) in
@@ -61,34 +67,104 @@ Theorem hover_inv d line col v r :
     token_at (d_toks d) index = Some t /\ In t (d_toks d) /\ tk t = Ident name /\
     ts t <= index /\ index < te t /\
     r = (as_position (ts t) (d_text d), as_position (te t) (d_text d)) /\
-    hover_entry d ctx name = Some e /\ v = hover_text e.
+    hover_entry d ctx (global_position_at (d_toks d) index) name = Some e /\ v = hover_text e.
 Proof.
   unfold hover. destruct (doc_cursor d line col) as [c|] eqn:Ec; [|discriminate]. cbn [rbind].
   destruct (doc_cursor_inv _ _ _ _ Ec) as [Hd Hi].
-  destruct (cursor_ident c) as [[name tr]|] eqn:Ei; [|discriminate].
+  destruct (cursor_ident c) as [[name tr]|] eqn:Ei; [|discriminate]. cbv zeta.
   destruct (c_ctx c) as [ctx|]; [|discriminate].
-  destruct (hover_entry d ctx name) as [e|] eqn:Ee; [|discriminate].
+  destruct (hover_entry d ctx (is_global_position c) name) as [e|] eqn:Ee; [|discriminate].
   unfold create_hover. intros [= <- <-].
   destruct (cursor_ident_inv _ _ _ Ei) as [t [Hin [Hk [Hr [H1 [H2 Hat]]]]]].
+  unfold is_global_position in Ee.
   rewrite Hd, Hi in *. subst tr.
   exists t, name, ctx, e. repeat split; assumption.
 Qed.
 
-(* the looked-up entry: which table it comes from *)
-Lemma hover_entry_inv d ctx name e :
-  hover_entry d ctx name = Some e ->
+(* the looked-up entry: which table it comes from.  In a procedure context the local table of the
+   context procedure is consulted first, unless the identifier stands in a global position *)
+Lemma hover_entry_inv d ctx gp name e :
+  hover_entry d ctx gp name = Some e ->
   match ctx with
   | GTypeE _ => exists g, lookup (d_table d) name = Some g /\ e = entry_of_g g
   | GProcE p =>
-      (exists l, lookup (pe_local p) name = Some l /\ e = entry_of_l l)
-      \/ (lookup (pe_local p) name = None /\ exists g, lookup (d_table d) name = Some g /\ e = entry_of_g g)
+      (gp = false /\ exists l, lookup (pe_local p) name = Some l /\ e = entry_of_l l)
+      \/ ((gp = true \/ lookup (pe_local p) name = None) /\
+          exists g, lookup (d_table d) name = Some g /\ e = entry_of_g g)
   end.
 Proof.
-  unfold hover_entry, lt_lookup. destruct ctx as [te|p].
+  unfold hover_entry, lookup_for, lt_lookup. destruct ctx as [te|p].
   - destruct (lookup (d_table d) name) as [g|]; [|discriminate]. intros [= <-]. eauto.
-  - destruct (lookup (pe_local p) name) as [l|].
-    + intros [= <-]. left. eauto.
+  - destruct gp.
     + destruct (lookup (d_table d) name) as [g|]; [|discriminate]. intros [= <-]. right. eauto.
+    + destruct (lookup (pe_local p) name) as [l|].
+      * intros [= <-]. left. eauto.
+      * destruct (lookup (d_table d) name) as [g|]; [|discriminate]. intros [= <-]. right. eauto.
+Qed.
+
+(* in a global position (and in every type declaration) the answer never comes from a local table *)
+Lemma hover_entry_global d ctx name :
+  hover_entry d ctx true name = option_map entry_of_g (lookup (d_table d) name).
+Proof.
+  unfold hover_entry, lookup_for, lt_lookup. destruct ctx; destruct (lookup (d_table d) name); reflexivity.
+Qed.
+
+(* ---- is_global_position: what the scan computes ---- *)
+
+(* the kind of the last non-comment token of a token list (starting from [prev]) *)
+Fixpoint prev_kind_k (prev : option kind) (l : list kind) : option kind :=
+  match l with
+  | [] => prev
+  | k :: r => prev_kind_k (match k with Comment _ => prev | _ => Some k end) r
+  end.
+
+Definition prev_kind (prev : option kind) (l : list token) : option kind := prev_kind_k prev (map tk l).
+
+Definition global_kind (k : option kind) : bool :=
+  match k with
+  | Some KProc | Some KType | Some Colon | Some KOf => true
+  | _ => false
+  end.
+
+Lemma gp_scan_spec isc : forall pre prev t post,
+  forallb (fun x => negb (isc x)) pre = true -> isc t = true ->
+  gp_scan prev (pre ++ t :: post) isc = global_kind (prev_kind prev pre).
+Proof.
+  induction pre as [|x pre IH]; intros prev t post Hpre Ht.
+  - unfold prev_kind. cbn [app gp_scan map prev_kind_k]. rewrite Ht. destruct prev as [[]|]; reflexivity.
+  - cbn [forallb] in Hpre. apply andb_true_iff in Hpre as [Hx Hpre]. unfold prev_kind in *.
+    cbn [app gp_scan map prev_kind_k]. apply negb_true_iff in Hx. rewrite Hx.
+    etransitivity; [apply IH; assumption|]. do 2 f_equal. destruct (tk x); reflexivity.
+Qed.
+
+Lemma gp_scan_none isc : forall l prev,
+  forallb (fun x => negb (isc x)) l = true -> gp_scan prev l isc = false.
+Proof.
+  induction l as [|x l IH]; intros prev H; [reflexivity|].
+  cbn [forallb] in H. apply andb_true_iff in H as [Hx H]. apply negb_true_iff in Hx.
+  cbn [gp_scan]. rewrite Hx. now apply IH.
+Qed.
+
+(* the token [find] returns splits the list: nothing in front of it satisfies the test *)
+Lemma find_split {A} (f : A -> bool) : forall l x,
+  find f l = Some x -> exists pre post, l = pre ++ x :: post /\ forallb (fun y => negb (f y)) pre = true /\ f x = true.
+Proof.
+  induction l as [|y l IH]; intros x H; [discriminate|]. cbn [find] in H. destruct (f y) eqn:E.
+  - injection H as <-. exists [], l. auto.
+  - destruct (IH _ H) as [pre [post [-> [Hp Hx]]]]. exists (y :: pre), post. cbn [forallb]. rewrite E. auto.
+Qed.
+
+(* global position = the last non-comment token in front of the FIRST token under the cursor is
+   `proc`, `type`, `:` or `of` *)
+Theorem global_position_spec toks index t :
+  token_at toks index = Some t ->
+  exists pre post, toks = pre ++ t :: post /\
+    forallb (fun x => negb (in_range (ts x, te x) index)) pre = true /\
+    global_position_at toks index = global_kind (prev_kind None pre).
+Proof.
+  unfold token_at, global_position_at. intros H.
+  destruct (find_split _ _ _ H) as [pre [post [-> [Hp Hx]]]]. exists pre, post.
+  repeat split; [exact Hp|]. now apply gp_scan_spec.
 Qed.
 
 Theorem hover_none d line col :
@@ -96,7 +172,7 @@ Theorem hover_none d line col :
      in_range (ts t, te t) (get_insertion_index line col (d_text d)) = false) ->
   forall x, hover d line col <> ROk (Some x).
 Proof.
-  intros H [v r] Hh. destruct (hover_inv _ _ _ _ _ Hh) as [t [name [ctx [e [_ [Hin [Hk [H1 [H2 _]]]]]]]]].
+  intros H [v r] Hh. destruct (hover_inv _ _ _ _ _ Hh) as [t [name [ctx [e [_ [Hin [Hk [H1 [H2 _]]]]]]]]]. cbv zeta in *.
   specialize (H t name Hin Hk). unfold in_range in H. cbn [fst snd] in H. b2p; lia.
 Qed.
 
@@ -154,8 +230,8 @@ Proof.
   destruct (find_decl_total (d_toks d) (get_insertion_index line col (d_text d)) _ H) as [g Hg].
   rewrite Hg. cbn [rbind].
   match goal with |- context [cursor_ident ?c] => destruct (cursor_ident c) as [[name r]|] end; [|eauto].
-  cbn [c_ctx]. destruct (match g with Some _ => _ | None => _ end) as [ctx|]; [|eauto].
-  destruct (hover_entry d ctx name); eauto.
+  cbv zeta. cbn [c_ctx]. destruct (match g with Some _ => _ | None => _ end) as [ctx|]; [|eauto].
+  match goal with |- context [hover_entry d ctx ?gp name] => destruct (hover_entry d ctx gp name) end; eauto.
 Qed.
 
 (* ---------------------------------------------------------------------------------------- *)
@@ -519,30 +595,3 @@ Definition sighelp_full_statement : Prop :=
                                   | _ :: _ => Some (commas_before sl (get_insertion_index line col t))
                                   end |}).
 
-(* ---- the hover half is REFUTED by the faithful model (known finding C14-hover-local-before-global):
-   in a procedure context hover looks every identifier up in the local table first, also the
-   procedure's own name in its header ---- *)
-Definition refute_text : text := str "proc k() { var k: int; k := 1; }" ++ [10] ++ str "proc main() {}".
-Definition refute_doc : doc :=
-  match new_doc_res refute_text with
-  | ODone d => d
-  | _ => {| d_text := []; d_toks := []; d_ast := {| pg_decls := []; pg_info := mkinfo 0 0 |}; d_table := [] |}
-  end.
-
-Theorem hover_full_refuted : ~ hover_full_statement.
-Proof.
-  intros H.
-  assert (Hd : new_doc_res refute_text = ODone refute_doc) by (vm_compute; reflexivity).
-  assert (Hn : no_diagnostics refute_doc).
-  { split; [vm_compute; reflexivity|]. apply Forall_forall. intros t Ht.
-    pose proof (proj1 (forallb_forall (fun t => match terr t with [] => true | _ => false end) (d_toks refute_doc))
-                      ltac:(vm_compute; reflexivity) t Ht) as Hx.
-    cbv beta in Hx. destruct (terr t); [reflexivity | discriminate]. }
-  (* the procedure name `k` in the header: token 1, bytes 5..6, position (0, 5) *)
-  destruct (H refute_text refute_doc Hd Hn (Some (str "k")) 1%nat (str "k") ScGlobal
-              ltac:(vm_compute; left; reflexivity)
-              {| tk := Ident (str "k"); ts := 5; te := 6; terr := [] |} 0 5
-              ltac:(vm_compute; reflexivity) ltac:(vm_compute; discriminate) ltac:(vm_compute; reflexivity))
-    as [e [Hb Hh]].
-  vm_compute in Hb. injection Hb as <-. vm_compute in Hh. discriminate.
-Qed.
